@@ -88,6 +88,7 @@ def gen_case(rng, tier):
     else:
         def_of = list(range(len(regs)))
     return {'names': names, 'dirs': dirs, 'regs': regs, 'def_of': def_of,
+            'spell': rng.choice([None, None, None, '//', '/./']),
             'depth': rng.choice([0, 1, 2, 3, 7, 7, 9]),
             'run_search': rng.random() < (0.2 if len(set(def_of)) < len(regs) else 0.05)}
 
@@ -164,19 +165,22 @@ def run_impl(case):
             os.mkdir(os.path.join(d, n))
             with open(os.path.join(d, n, 'inner.log'), 'w') as f:
                 f.write('x\n')
+        # the user may spell the directory non-canonically (// or /./): every registration
+        # form must file a given file under the same key
+        dsp = d if not case.get('spell') else tmp + case['spell'] + 'logs'
         def_of = case.get('def_of') or list(range(len(case['regs'])))
         defs = [SearchDef(r'.*', tag=f't{i}') for i in range(len(case['regs']))]
         fs = FileSearcher(max_logrotate_depth=case['depth'])
         regs_out = []
         for i, r in enumerate(case['regs']):
             if r['form'] == 'dir':
-                path, kind = d, 'dir'
-                listing = [os.path.join(d, x) for x in os.listdir(d)]
+                path, kind = dsp, 'dir'
+                listing = [os.path.join(dsp, x) for x in os.listdir(d)]
             elif r['form'] == 'file':
-                path, kind = os.path.join(d, r['name']), 'file'
+                path, kind = os.path.join(dsp, r['name']), 'file'
                 listing = []
             else:
-                path, kind = os.path.join(d, r['pattern']), 'other'
+                path, kind = os.path.join(dsp, r['pattern']), 'other'
                 listing = glob.glob(path)
             alone = FileSearcher(max_logrotate_depth=case['depth'])
             alone.add(defs[def_of[i]], path)
